@@ -454,18 +454,20 @@ class SimpleJSONRPCDispatcher(SimpleXMLRPCDispatcher, object):
         except KeyError:
             if self.instance is not None:
                 # Try with the registered instance
+                dispatcher = getattr(self.instance, "_dispatch", None)
+                if dispatcher is not None:
+                    # Instance has a custom dispatcher: an AttributeError it
+                    # raises is an error of the method, not a missing dispatcher
+                    return dispatcher(method, params)
+
+                # Resolve the method name in the instance
                 try:
-                    # Instance has a custom dispatcher
-                    return getattr(self.instance, "_dispatch")(method, params)
+                    func = resolve_dotted_attribute(
+                        self.instance, method, True
+                    )
                 except AttributeError:
-                    # Resolve the method name in the instance
-                    try:
-                        func = resolve_dotted_attribute(
-                            self.instance, method, True
-                        )
-                    except AttributeError:
-                        # Unknown method
-                        pass
+                    # Unknown method
+                    pass
 
         if func is not None:
             try:
